@@ -10,7 +10,7 @@ ID = "C15"
 DETERMINISTIC = True  # pure in-memory functions judged by a pure oracle: see runner (a failure seen once counts)
 RULE = (
     "case = two time-sorted, internally non-overlapping layouts (0..8 each) on a ms grid; the second is independent or a perturbation of the first "
-    "(containment both ways, one spanning several, shared edges, zero-length). Oracle on integers: output == multiset(list one, unchanged) + "
+    "(containment both ways, one spanning several, shared edges, zero-length); one case in four has the whole layout stretched from ms to whole seconds, hours, half days or days (class 'spans_of_a_day_or_more'). Oracle on integers: output == multiset(list one, unchanged) + "
     "multiset{maximal positive-length sub-intervals of each e2 not covered by list one, with e2's data}; no positive pairwise overlap; inputs deep-equal "
     "before/after. Zero-length list-two pieces are ignored. Non-trivial = an event of one list positively overlaps >= 2 events of the other."
 )
@@ -34,6 +34,11 @@ def strategy(draw, tier="quick"):
             e["id"] = i + 1
         for e in b:
             e.pop("id", None)
+    # the same layout in another unit: one in four cases is stretched to whole seconds, hours, half days or days, so that
+    # pieces reach and cross the fields a timedelta is made of (days / seconds / microseconds)
+    unit = draw(st.sampled_from([1] * 9 + [1000, 3_600_000, 43_200_000, 86_400_000]))
+    if unit != 1:
+        a, b = ([dict(e, s=e["s"] * unit, d=e["d"] * unit) for e in lst] for lst in (a, b))
     return {"a": a, "b": b}
 
 
@@ -105,6 +110,8 @@ def run_case(case):
             if sum(1 for f in y if iv.positive_overlap((e["s"], e["s"] + e["d"]), (f["s"], f["s"] + f["d"]))) >= 2:
                 multi = True
     classes = []
+    if any(e["d"] >= 86_400_000 for e in case["a"] + case["b"]):
+        classes.append("spans_of_a_day_or_more")
     if multi:
         classes.append("one_meets_many")
     if any(e["d"] == 0 for e in a + b):
